@@ -269,7 +269,7 @@ package rapid
 //@   ensures [waits-for-every-process-before-returning] delta(ClearExited) == 1 && (delta(KillAny) >= 1 ==> last(KillAny) < first(ClearExited)) && (delta(ShutdownAgentsStep) == 1 ==> last(ShutdownAgentsStep) < first(ClearExited))
 
 // the runtime's share of the shutdown budget
-//@ const runtimeDeadlineShare * 10 == 3
+//@ const ratEq(runtimeDeadlineShare, 3, 10)
 //@ const maxProcessExitWait == 2000000000
 //@ const supervisorBlockingMaxMillis == 9000
 
